@@ -3279,6 +3279,9 @@ class quantized_hswish(quantized_bits):  # pylint: disable=invalid-name
     """Add relu_shift and relu_upper_bound to the config file."""
 
     base_config = super(quantized_hswish, self).get_config()
+    # quantized_hswish.__init__ does not take these quantized_bits arguments.
+    base_config.pop("keep_negative", None)
+    base_config.pop("post_training_scale", None)
 
     config = {
         "relu_shift": self.relu_shift,
